@@ -646,7 +646,12 @@ fn gen_global(rng: &mut Rng, out: &mut Vec<String>, roles: &mut Vec<Role>) {
         5 => {
             // sticky short forms (git-ai accepts them; git does not)
             let k = pick_s(rng, &["-c", "-C"]);
-            out.push(format!("{k}{}", pick_s(rng, VALUES)));
+            let mut v = pick_s(rng, VALUES);
+            if v.is_empty() {
+                // a bare -c/-C would take the next token as its value
+                v = "x".to_string();
+            }
+            out.push(format!("{k}{v}"));
             roles.push(Role::GlobalOpt);
         }
         6 | 7 => {
